@@ -44,6 +44,9 @@ def expected_dtype(col):
         return {"category"}
     if k == "nullable":
         return {col["sub"]}
+    if k == "pyobj":
+        # stored as INT64 / BOOLEAN / DOUBLE; nullable or plain depending on what the statistics say about nulls
+        return {"int": {"int64", "Int64"}, "bool": {"bool", "boolean"}, "float": {"float64"}}[col["sub"]]
     raise ValueError(k)
 
 
@@ -112,6 +115,26 @@ def canon_cells(values, col):
         for c in np.asarray(arr.codes).tolist():
             out.append(MISSING if c < 0 else (cats[c] if c < len(cats) else ("!code", c)))
         return out, problems
+    if kind == "pyobj" and col["sub"] == "float":
+        for x in np.asarray(arr, dtype=object).tolist():
+            if _is_missing_scalar(x):
+                out.append(MISSING)
+            elif isinstance(x, (float, np.floating)):
+                out.append(float(x).hex())
+            else:
+                out.append(("!", repr(x)))
+        return out, problems
+    if kind == "pyobj":
+        isna = np.asarray(pd.isna(arr))
+        vals = np.asarray(arr.to_numpy(dtype=object, na_value=None)) if hasattr(arr, "to_numpy") else np.asarray(arr, dtype=object)
+        for m, x in zip(isna.tolist(), vals.tolist()):
+            if m:
+                out.append(MISSING)
+            elif col["sub"] == "bool":
+                out.append(bool(x) if isinstance(x, (bool, np.bool_)) else ("!", repr(x)))
+            else:
+                out.append(int(x) if isinstance(x, (int, np.integer)) and not isinstance(x, (bool, np.bool_)) else ("!", repr(x)))
+        return out, problems
     if kind == "nullable":
         isna = np.asarray(pd.isna(arr))
         vals = np.asarray(arr.to_numpy(dtype=object, na_value=None)) if hasattr(arr, "to_numpy") else np.asarray(arr, dtype=object)
@@ -170,6 +193,8 @@ def compare_column(col, n, result, check_dtype=True, rows=None, ns_ok=False):
                 f = cases.UNIT_NS[col["unit"]]
                 exp = [e if e is MISSING else e * f for e in exp]
             allowed |= expected_dtype(alt)
+        if col["kind"] == "pyobj" and all(e is MISSING for e in exp):
+            allowed |= {dt}          # nothing to infer the stored type from
         if dt not in allowed:
             return ("dtype", "dtype %s not in %s" % (dt, sorted(allowed)))
     got, problems = canon_cells(result, col)
